@@ -49,6 +49,8 @@ type Conn struct {
 	DownErr     error // strict parse error on bytes the broker sent
 	DownErrAt   int64
 	Recvd       []*Recv
+	FirstBytes  []byte // the first bytes the client sent (up to 512)
+	UpVT        []int64 // virtual time of every chunk the client put on the wire
 	rdS         refmqtt.Stream
 	Dead        bool   // reader observed the end of the connection
 	DeadKind    string // eof, reset, error
@@ -140,6 +142,8 @@ type run struct {
 	provName string
 	m        *Model
 	cur      *Conn // connection the oracle is currently judging
+
+	malformedAccepted bool
 }
 
 var provCounter uint64
@@ -203,6 +207,10 @@ func (r *run) tap(c *Conn, up bool) func(b []byte) {
 		if up {
 			stream, first, list = &c.upS, &c.upF, &c.Up
 			c.LastUpVT = int64(s.Now())
+			c.UpVT = append(c.UpVT, c.LastUpVT)
+			if len(c.FirstBytes) < 512 {
+				c.FirstBytes = append(c.FirstBytes, b...)
+			}
 		}
 		if stream.Pending() == 0 {
 			*first = st
